@@ -211,7 +211,7 @@ impl Val {
 
 #[derive(Clone, Debug)]
 pub enum Event {
-    Push { place: String, site: String, func: String, recv: String },
+    Push { place: String, site: String, func: String, recv: String, args: Vec<String> },
     Panic { site: String },
     Index { place: String, idx: String, site: String },
     Note(String),
@@ -397,7 +397,8 @@ impl<'a> Ev<'a> {
             let place = args.first().map(|a| a.short()).unwrap_or_default();
             let site = format!("{}:{}", f.file, f.line);
             let recv = self_val.as_ref().map(|v| self.deref(&st, v).short()).unwrap_or_default();
-            st.events.push(Event::Push { place, site, func: f.qual.clone(), recv });
+            let all: Vec<String> = args.iter().map(|a| self.deref(&st, a).short()).collect();
+            st.events.push(Event::Push { place, site, func: f.qual.clone(), recv, args: all });
         }
         if let Some(v) = self.stop_vals.get(&f.qual) { return vec![(st, Flow::Val(v.clone()))]; }
         let opened = st.depth == 0 && self.open_at_top.borrow().as_deref() == Some(f.qual.as_str());
@@ -578,6 +579,20 @@ impl<'a> Ev<'a> {
                     self.bind_pat_irrefutable(st, pp, vv);
                 }
             }
+            syn::Pat::Struct(ps) => {
+                for fp in &ps.fields {
+                    let m = fp.member.to_token_stream().to_string();
+                    let fv = self.project(st, &v, &m);
+                    self.bind_pat_irrefutable(st, &fp.pat, fv);
+                }
+            }
+            syn::Pat::TupleStruct(ts) => {
+                for (i, pp) in ts.elems.iter().enumerate() {
+                    let fv = match &v { Val::Enum { args, .. } if args.len() == ts.elems.len() => args[i].clone(), other => self.project(st, other, &i.to_string()) };
+                    self.bind_pat_irrefutable(st, pp, fv);
+                }
+            }
+            syn::Pat::Slice(_) | syn::Pat::Rest(_) => {}
             other => {
                 self.unsup("irrefutable pattern kind", other.span());
             }
@@ -593,7 +608,11 @@ impl<'a> Ev<'a> {
                 if pi.subpat.is_some() {
                     self.unsup("@ pattern", p.span());
                 }
-                vec![(st, Some(vec![(pi.ident.to_string(), v)]))]
+                let n = pi.ident.to_string();
+                // `None`, and unit variants of the scrutinee's own enum, are paths even when written as a bare identifier
+                let is_variant = n == "None" || match &v { Val::Sym { ty, .. } => ty.name().and_then(|t| self.ix.enums.get(t)).map(|e| e.variants.iter().any(|x| *x == n)).unwrap_or(false), Val::Enum { ty, .. } => self.ix.enums.get(ty).map(|e| e.variants.iter().any(|x| *x == n)).unwrap_or(false), _ => false };
+                if is_variant && pi.by_ref.is_none() && pi.mutability.is_none() { return self.match_variant(st, &[n], &[], &v, p.span()); }
+                vec![(st, Some(vec![(n, v)]))]
             }
             syn::Pat::Reference(r) => self.match_pat(st, &r.pat, &v),
             syn::Pat::Paren(r) => self.match_pat(st, &r.pat, &v),
@@ -700,7 +719,7 @@ impl<'a> Ev<'a> {
                                         if let Some((_, t)) = en.variant_fields[vi].iter().find(|(n, _)| n == name) { fty = Ty::from_syn(t); }
                                     }
                                 } else if let Some(t) = self.ix.field_ty(&var, name) { fty = Ty::from_syn(&t); }
-                                let base = if is_variant { format!("{path}.{var}.{name}") } else { format!("{path}.{name}") };
+                                let base = if is_variant { format!("{path}.{var}.{name}") } else { format!("{path}.{}", self.ix.canon_name(&var, name)) };
                                 pats.push(*p);
                                 vals.push(Val::Sym { ty: fty, path: base });
                             }
@@ -1005,7 +1024,15 @@ impl<'a> Ev<'a> {
                             if let Some(rest) = &rest {
                                 for (s3, fl) in self.eval_expr(s2, rest) {
                                     match fl {
-                                        Flow::Val(rv) => { let mut f2 = fields.clone(); f2.push(("..".into(), rv)); r.push((s3, Flow::Val(Val::Struct { name: name.clone(), fields: f2 }))); }
+                                        Flow::Val(rv) => {
+                                            let mut f2 = fields.clone();
+                                            match self.deref(&s3, &rv) {
+                                                // `..base` with a known base: the remaining fields are copied
+                                                Val::Struct { name: bn, fields: bf } if bn == name => { for (n, v) in bf { if !f2.iter().any(|(m, _)| *m == n) { f2.push((n, v)); } } }
+                                                _ => f2.push(("..".into(), rv)),
+                                            }
+                                            r.push((s3, Flow::Val(Val::Struct { name: name.clone(), fields: f2 })));
+                                        }
                                         other => r.push((s3, other)),
                                     }
                                 }
@@ -1121,7 +1148,9 @@ impl<'a> Ev<'a> {
     fn project(&self, st: &St, v: &Val, name: &str) -> Val {
         match self.deref(st, v) {
             Val::Sym { ty, path } => {
-                let np = format!("{path}.{name}");
+                // paths are spelt with canonical field names (by declared type), so that renaming a field is invisible to the rules
+                let cname = ty.name().map(|sn| self.ix.canon_name(sn, name)).unwrap_or_else(|| name.to_string());
+                let np = format!("{path}.{cname}");
                 if let Some(sn) = ty.name() {
                     if sn == "Flag" && name == "span" {
                         return Val::Sym { ty: Ty::Named("Option".into(), vec![Ty::Named("Span".into(), vec![])]), path };
@@ -1462,6 +1491,37 @@ impl<'a> Ev<'a> {
                 }
                 r
             }
+            Val::List(vs) if vs.len() == 1 && matches!(&vs[0], Val::Rep { .. }) => {
+                // iterate what an earlier summarised loop accumulated: one symbolic element (the innermost item)
+                let mut cur = &vs[0];
+                let mut coll = String::new();
+                while let Val::Rep { coll: c, items } = cur { coll = c.clone(); if items.len() == 1 { cur = &items[0]; } else { break; } }
+                let elem = cur.clone();
+                let mut s2 = s;
+                s2.env.push(HashMap::new());
+                self.bind_pat_irrefutable(&mut s2, &f.pat, elem);
+                let mut r = Vec::new();
+                for (mut s3, fl2) in self.eval_block(s2, &f.body) {
+                    s3.env.pop();
+                    let _ = &coll;
+                    match fl2 { Flow::Val(_) | Flow::Cont | Flow::Brk => r.push((s3, Flow::Val(Val::Unit))), other => r.push((s3, other)) }
+                }
+                r
+            }
+            Val::Opaque { .. } => {
+                // unknown collection (e.g. a std container): evaluation goes on with one opaque element; whatever the body
+                // contributes shows up as opaque values, which the rules reject on their own if it matters to them
+                self.unsup(&format!("soft: for over {}", it.short().chars().take(80).collect::<String>()), f.expr.span());
+                let mut s2 = s;
+                s2.env.push(HashMap::new());
+                self.bind_pat_irrefutable(&mut s2, &f.pat, Val::opaque("element", vec![it.clone()]));
+                let mut r = Vec::new();
+                for (mut s3, fl2) in self.eval_block(s2, &f.body) {
+                    s3.env.pop();
+                    match fl2 { Flow::Val(_) | Flow::Cont | Flow::Brk => r.push((s3, Flow::Val(Val::Unit))), other => r.push((s3, other)) }
+                }
+                r
+            }
             _ => {
                 self.unsup(&format!("for over {}", it.short()), f.expr.span());
                 vec![]
@@ -1578,7 +1638,7 @@ impl<'a> Ev<'a> {
                         let ep = format!("{path}[*]");
                         let mut fields = Vec::new();
                         for (fname, fty) in &sd.fields {
-                            let fpath = format!("{ep}.{fname}");
+                            let fpath = format!("{ep}.{}", self.ix.canon_name(&sd.name, fname));
                             let t = Ty::from_syn(fty);
                             let v = if t.name() == Some("Vec") { Val::Array((1..=n).map(|k| Val::Sym { ty: t.arg0(), path: format!("{fpath}[#{k}]") }).collect()) } else { Val::Sym { ty: t, path: fpath } };
                             fields.push((fname.clone(), v));
@@ -1682,6 +1742,19 @@ impl<'a> Ev<'a> {
                         }
                         return r;
                     }
+                }
+            }
+        }
+        if name == "for_each" && m.args.len() == 1 {
+            // `it.for_each(|x| body)` is `for x in it { body; }` when the closure does not `return`
+            if let syn::Expr::Closure(c) = &m.args[0] {
+                let has_ret = c.body.to_token_stream().into_iter().any(|t| matches!(&t, proc_macro2::TokenTree::Ident(i) if i == "return")) || c.body.to_token_stream().to_string().contains("return ");
+                if c.inputs.len() == 1 && !has_ret {
+                    let pat = match &c.inputs[0] { syn::Pat::Type(pt) => (*pt.pat).clone(), other => other.clone() };
+                    let recv = &m.receiver;
+                    let body = &c.body;
+                    let fl: syn::ExprForLoop = syn::parse_quote_spanned! { m.span() => for #pat in #recv { #body; } };
+                    return self.eval_for(st, &fl);
                 }
             }
         }
